@@ -48,3 +48,41 @@ J(name="c20.stringToH3", props=["C20", "C12", "C18"], harness="c20.c", entry="h_
   enforce=["stringToH3"], replace=["h3v_sscanf_lx"], replay=dict(fn="stringToH3", args=[]))
 J(name="c20.roundtrip", props=["C20"], harness="c20.c", entry="h_roundtrip",
   replace=["h3ToString", "stringToH3"], replay=dict(fn="h3ToString", args=["h", "=17"]))
+
+# ------------------------------------------------------------------ C04
+UNW = dict(unwind=17, cbmc=[])   # digit loops: at most 15 iterations (4-bit resolution field); unwinding assertions make it complete
+J(name="c04.isPentagon", props=["C04", "C12", "C18"], harness="c04.c", entry="h_isPentagon",
+  enforce=["isPentagon"], unwind=17, replay=dict(fn="isPentagon", args=["h"]))
+J(name="c04.ipow", props=["C04", "C13"], harness="c04.c", entry="h_ipow", enforce=["_ipow"], unwind=6)
+J(name="c04.cellToParent", props=["C04", "C12", "C18", "C01"], harness="c04.c", entry="h_cellToParent",
+  enforce=["cellToParent"],
+  loops=[dict(fn="cellToParent", loop=0, locals=["i", "parentH", "parentRes", "childRes", "h"],
+              assigns="i, parentH",
+              inv="parentRes + 1 <= i && i <= childRes + 1 && childRes <= 15 && parentRes >= 0 && "
+                  "parentH == (S_SETRES(h, parentRes) | S_MASK_BETWEEN(parentRes, i - 1))",
+              dec="childRes + 1 - i")],
+  replay=dict(fn="cellToParent", args=["h", "parentRes"]))
+J(name="c04.cellToChildrenSize", props=["C04", "C12", "C18"], harness="c04.c", entry="h_cellToChildrenSize",
+  enforce=["cellToChildrenSize"], replace=["isPentagon", "_ipow"],
+  replay=dict(fn="cellToChildrenSize", args=["h", "childRes"]))
+J(name="c04.cellToCenterChild", props=["C04", "C12", "C18", "C01"], harness="c04.c", entry="h_cellToCenterChild",
+  enforce=["cellToCenterChild"], replay=dict(fn="cellToCenterChild", args=["h", "childRes"]))
+
+J(name="c04.iterInitParent", props=["C04", "C12", "C18"], harness="c04.c", entry="h_iterInitParent",
+  enforce=["_iterInitParent"], replace=["isPentagon"])
+J(name="c04.iterStepChild.bits", props=["C04", "C12", "C18"], harness="c04.c", entry="h_iterStepChild",
+  enforce=["iterStepChild/iterStepChild_bits_contract"], unwind=18, timeout=1800)
+
+# position arithmetic of the step, one complete proof per (parentRes, childRes) pair (the 136 pairs are the whole domain)
+PAIRS = [(pr, cr) for pr in range(16) for cr in range(pr, 16)]
+for (pr, cr) in PAIRS:
+    J(name="c04.iterStepChild.pos.%d.%d" % (pr, cr), props=["C04"], harness="c04.c", entry="h_iterStepChild_pair",
+      defs=["PR=%d" % pr, "CR=%d" % cr], enforce=["iterStepChild"], unwind=18, timeout=900, pair=(pr, cr),
+      tier="quick" if cr - pr <= 1 or (pr, cr) in ((0, 15), (3, 9)) else "thorough")
+
+J(name="lemma.rank.base", props=["C04", "C13"], harness="lemmas.c", entry="h_lemma_base")
+for lev in range(1, 16):
+    J(name="lemma.rank.unfold.%d" % lev, props=["C04", "C13"], harness="lemmas.c", entry="h_lemma_unfold",
+      defs=["LEVEL=%d" % lev], timeout=600)
+    J(name="lemma.rank.step.%d" % lev, props=["C04", "C13"], harness="lemmas.c", entry="h_lemma_step",
+      defs=["LEVEL=%d" % lev], timeout=600)
